@@ -174,7 +174,7 @@ Definition body_events (orc : N -> N -> bool) (s : st) (o : op) : list cev :=
   | FlushRegion id =>
       with_region_ev s id (fun i =>
         match slot s i with
-        | Some m => if m_is_dirty m || (r_state m =? ST_FLUSH) then [CDataSync; CMetaSync] else []
+        | Some m => if m_is_dirty m || negb (r_state m =? ST_CLEAN) then [CDataSync; CMetaSync] else []
         | None => []
         end)
   | Compact => flush_events s ++ punch_events orc (fst (flush s))
